@@ -6,7 +6,7 @@ SPEC = {
                           "u64_int_fits", "i64_exact", "datum_map_preserves", "unfixed_truncates_at_witness", "map_tx_preserves", "map_block_preserves",
                           "mapOutput_preserves", "mapTxDatum_preserves", "input_index_truncates_at_witness"],
     "streams": [{"name": "u5c", "quick": 200, "thorough": 30000}],
-    "rule": "txview cases: for every transaction (quick: the first 4 of each block of a 36-file window; thorough: all) of the test_data blocks and tx files, and for 2 generated Conway transactions per generated case (txbuilder: 1-3 inputs, outputs with u64-edge coins, assets incl. quantities above 2^63, datum hash / inline datum trees, native / Plutus script refs, mint incl. i64::MIN/MAX, collateral + return, reference inputs, validity bounds, witness datums, a spend redeemer), the ledger view read through pallas-traverse is put on the op line, both mappers run on the real transaction, and the canonical rendering of the mapped message is compared with the Lean model of map_tx applied to the view. file cases: blocks (*.block) and transactions (*.tx) of test_data through map_block / map_tx of BOTH schema versions "
+    "rule": "txview cases: for every transaction (quick: the first 4 of each block of a 36-file window; thorough: all) of the test_data blocks and tx files, and for 2 generated Conway transactions per generated case (txbuilder: 1-3 inputs, outputs with u64-edge coins, assets incl. quantities above 2^63, datum hash / inline datum trees, native / Plutus script refs, mint incl. i64::MIN/MAX, collateral + return, reference inputs, validity bounds, witness datums, a spend redeemer) and, for each of them, up to 4 legal but NON-CANONICAL re-encodings made with the CST mutator of harness/src/fixtures/w12_cst.rs (2 single-site mutations inside #6.24-wrapped items = inline datums and script refs; 2 random mutants anywhere: definite <-> indefinite, wider heads, chunked strings, swapped map entries; kept only if pallas still decodes), the ledger view read through pallas-traverse is put on the op line, both mappers run on the real transaction, and the canonical rendering of the mapped message is compared with the Lean model of map_tx applied to the view. file cases: blocks (*.block) and transactions (*.tx) of test_data through map_block / map_tx of BOTH schema versions "
             "(quick: a seed-dependent window of 36 of the files; thorough: all), every mapped hash / input / output address, coin, "
             "assets / fee / validity / output datum / witness datum re-extracted with pallas-traverse and compared. Generated cases: "
             "3..8 ops of: Plutus integers (CBOR ints at 0, +-1, 23/24, i64 and u64 edges, random 64-bit, 2^63..2^64, "
@@ -34,5 +34,5 @@ SPEC = {
     ],
     "explanation": "Level `proof` (partial): every clause of the property has a Lean theorem over the model of the mapper for all transaction views (map_tx_preserves with bigint_exact / datum_map_preserves / u64_exact inside), tied to both schema versions on the whole test_data corpus and generated transactions; what remains outside is named in the manifest text. Deviation #29 of DESIGN §6 was reproduced by this check on the unchanged tree "
                    "(plutus-integer-not-exact range=above-i64 / below-i64, both versions, also through map_tx output datums) and "
-                   "repaired (`fix: utxorpc maps Plutus integers outside i64 to big-integer bytes`); the model is the repaired code. Self-tests run: (1) u64_to_bigint taking the Int branch for every value (`value as i64` always) -> exit 1, VIOLATION scalar-not-exact op=u64 with the one-op replay `u64 18446744073709551615`; (2) the match in map_plutus_bigint rewritten as if/else-if -> quiet. Self-tests of the map_tx part: (3) validity start / ttl swapped in v1alpha map_tx -> exit 1, VIOLATION mapped-validity-differs version=v1alpha + schema-versions-disagree op=map_tx; (4) v1beta map_asset if/else rewritten as a match -> quiet.",
+                   "repaired (`fix: utxorpc maps Plutus integers outside i64 to big-integer bytes`); the model is the repaired code. Self-tests run: (1) u64_to_bigint taking the Int branch for every value (`value as i64` always) -> exit 1, VIOLATION scalar-not-exact op=u64 with the one-op replay `u64 18446744073709551615`; (2) the match in map_plutus_bigint rewritten as if/else-if -> quiet. Seeded change C44-b (inline-datum hash taken over a re-encoding instead of the original bytes) -> exit 1, VIOLATION datum-hash-not-of-wire-bytes with a one-op replay (a chunked byte string 5f42613a4133ff as inline datum). Self-tests of the map_tx part: (3) validity start / ttl swapped in v1alpha map_tx -> exit 1, VIOLATION mapped-validity-differs version=v1alpha + schema-versions-disagree op=map_tx; (4) v1beta map_asset if/else rewritten as a match -> quiet.",
 }
